@@ -16,9 +16,12 @@
 //	H4 every listed segment exists, is a whole number of 188-byte packets, begins
 //	   with PAT then PMT and — stream with video — its first video access unit is a
 //	   key frame unless the entry carries EXT-X-DISCONTINUITY AND the published
-//	   frames themselves show a timestamp discontinuity there (judged from the case,
-//	   not from lal's tag: a frame more than 10 x fragment_duration after, or more
-//	   than 1000 ms before, an earlier frame since the previous segment start)
+//	   frames themselves explain the forced split (judged from the case, not from
+//	   lal's tag: one of the first two units of the segment lies more than
+//	   10 x fragment_duration after, or more than 1000 ms before, one of the first
+//	   two units of the segment before it); the first segment of an incarnation
+//	   must start at a key frame that carries the parameter sets in force and hold
+//	   nothing of another incarnation
 //	H5 every segment listed in the current or any of the previous delete_threshold
 //	   playlist versions still exists
 //	H6 (end of each incarnation) the segments in sequence order (= creation order,
@@ -100,8 +103,18 @@ type segAnalysis struct {
 	headMsg          string
 	hasVideoFrame    bool
 	firstVideoKey    bool
-	firstVideoSerial uint32 // serial of the first slice unit of the first video access unit (0: not decodable)
+	firstVideoSerial uint32   // serial of the first slice unit of the first video access unit (0: not decodable)
+	units            []unit   // every PES packet of the segment in packet order, attributed to a published frame where possible
+	inband           [][]byte // parameter set units of the first video access unit, in order
 	demuxErr         string
+}
+
+// unit is one PES packet of a segment, traced back to the frame the publisher
+// sent: a video access unit through the serial of its first slice, an AAC batch
+// through the seed that starts the payload of its first ADTS frame.
+type unit struct {
+	video  bool
+	serial uint32 // 0: not attributable (Opus, a frame too short to carry a serial)
 }
 
 type version struct {
@@ -144,6 +157,9 @@ type oracle struct {
 	closedSegs   int
 	maxVersions  int
 	discontSegs  map[string]bool
+	judgedAttr   map[*hlsfs.File]bool // non-key segment starts judged by attribution to the opening frames
+	judgedWindow map[*hlsfs.File]bool // ... by the window fallback (a unit could not be attributed)
+	judgedFirst  map[*hlsfs.File]bool // first segments of incarnations with video
 	removedWhile int
 }
 
@@ -319,6 +335,12 @@ func (o *oracle) onOp(st *hlsfs.State, op hlsfs.Op) {
 			o.discontSegs[sg.URI] = true
 		}
 		inc, okInc := o.segInc[f]
+		if okInc && o.segK[f] == 0 && o.c.Incs[inc].Codecs.Video != "" {
+			if sig, msg := o.firstSegmentProblem(inc, f); sig != "" {
+				o.fail(sig, "after operation %d: listed segment %s is the first segment of incarnation %d (%s): %s", op.Index, sg.URI, inc, shape(o.c.Incs[inc].Codecs), msg)
+				return
+			}
+		}
 		if okInc && o.c.Incs[inc].Codecs.Video != "" && an.hasVideoFrame && !an.firstVideoKey {
 			if !sg.Discontinuity {
 				o.fail("H4/segment-starts-at-non-key-frame", "after operation %d: listed segment %s (sequence %d, no EXT-X-DISCONTINUITY) of a stream with video: its first video access unit holds no IDR/IRAP unit",
@@ -429,9 +451,72 @@ func (o *oracle) analyse(f *hlsfs.File) *segAnalysis {
 					an.firstVideoSerial = ser
 				}
 			}
+			if !slice {
+				isPS := false
+				if es.StreamType == tsref.StreamTypeH264 {
+					isPS = n[0]&0x1f == 7 || n[0]&0x1f == 8
+				} else if t := int(n[0]>>1) & 0x3f; t >= 32 && t <= 34 {
+					isPS = true
+				}
+				if isPS {
+					an.inband = append(an.inband, n)
+				}
+			}
 		}
 	}
+	kind := map[uint16]uint8{}
+	for _, es := range res.PMTs[0].Streams {
+		kind[es.PID] = es.StreamType
+	}
+	for _, p := range res.PES {
+		u := unit{}
+		switch kind[p.PID] {
+		case tsref.StreamTypeH264, tsref.StreamTypeH265:
+			u.video = true
+			u.serial = firstSliceSerial(p.Payload, kind[p.PID] == tsref.StreamTypeH265)
+		case tsref.StreamTypeAAC:
+			// ADTS: 7-byte header (protection absent), then the raw data block = the published payload, which
+			// gen.Item.Payload starts with the 4-byte seed
+			if b := p.Payload; len(b) >= 11 && b[0] == 0xFF && b[1]&0xF0 == 0xF0 && b[1]&1 == 1 {
+				u.serial = uint32(b[7])<<24 | uint32(b[8])<<16 | uint32(b[9])<<8 | uint32(b[10])
+			}
+		}
+		an.units = append(an.units, u)
+	}
 	return an
+}
+
+// firstSliceSerial decodes the serial gen.NalSpec.Bytes stores behind the header
+// of the first slice unit of an access unit (four base-251 digits, each +4).
+func firstSliceSerial(au []byte, hevc bool) uint32 {
+	for _, n := range lalclient.SplitAnnexB(au) {
+		if len(n) == 0 {
+			continue
+		}
+		hdr := 1
+		if hevc {
+			hdr = 2
+			if int(n[0]>>1)&0x3f > 23 {
+				continue
+			}
+		} else if t := n[0] & 0x1f; t < 1 || t > 5 {
+			continue
+		}
+		if len(n) < hdr+4 {
+			return 0
+		}
+		ser, mul := uint32(0), uint32(1)
+		for i := 0; i < 4; i++ {
+			b := n[hdr+i]
+			if b < 4 || b > 254 {
+				return 0
+			}
+			ser += uint32(b-4) * mul
+			mul *= 251
+		}
+		return ser
+	}
+	return 0
 }
 
 // timeline is what the case says about the frames of one incarnation: for every
@@ -443,12 +528,18 @@ type timeline struct {
 	rebased  []int64
 	video    []bool
 	bySerial map[uint32]int // first-slice serial of a video frame -> media position
+	bySeed   map[uint32]int // seed of an audio frame -> media position
+	variant  []int          // per media position: variant of the video sequence header in force (-1: none yet)
 }
 
 func buildTimeline(in Inc) *timeline {
-	t := &timeline{bySerial: map[uint32]int{}}
+	t := &timeline{bySerial: map[uint32]int{}, bySeed: map[uint32]int{}}
 	var baseV, baseA int64 = -1, -1
+	variant := -1
 	for i, it := range in.Items {
+		if it.Kind == "vsh" {
+			variant = it.Variant
+		}
 		if it.Kind != "video" && it.Kind != "audio" {
 			continue
 		}
@@ -473,13 +564,90 @@ func buildTimeline(in Inc) *timeline {
 			if ts >= baseA {
 				r = ts - baseA
 			}
+			if _, dup := t.bySeed[it.ASeed]; !dup {
+				t.bySeed[it.ASeed] = len(t.media)
+			}
 		}
+		t.variant = append(t.variant, variant)
 		t.media = append(t.media, i)
 		t.raw = append(t.raw, ts)
 		t.rebased = append(t.rebased, r)
 		t.video = append(t.video, it.Kind == "video")
 	}
 	return t
+}
+
+// openers maps the first two units of a segment to media positions of the
+// published frames; ok is false when one of them cannot be attributed.
+func (t *timeline) openers(an *segAnalysis) (pos []int, ok bool) {
+	for i := 0; i < 2 && i < len(an.units); i++ {
+		u := an.units[i]
+		m := t.bySeed
+		if u.video {
+			m = t.bySerial
+		}
+		p, found := m[u.serial]
+		if u.serial == 0 || !found {
+			return nil, false
+		}
+		pos = append(pos, p)
+	}
+	return pos, len(pos) > 0
+}
+
+// firstSegmentProblem judges the first segment of an incarnation of a stream with
+// video: its first video access unit is a key frame that carries the parameter
+// sets of the sequence header in force, and nothing in the segment stems from
+// another incarnation.  "" = fine.
+func (o *oracle) firstSegmentProblem(inc int, f *hlsfs.File) (sig, msg string) {
+	t := o.tl[inc]
+	if t == nil {
+		t = buildTimeline(o.c.Incs[inc])
+		o.tl[inc] = t
+	}
+	an := o.analyse(f)
+	o.judgedFirst[f] = true
+	for i, u := range an.units {
+		if u.serial == 0 {
+			continue
+		}
+		m, what := t.bySeed, "audio batch"
+		if u.video {
+			m, what = t.bySerial, "video access unit"
+		}
+		if _, mine := m[u.serial]; !mine {
+			return "H4/first-segment-holds-data-of-another-incarnation", fmt.Sprintf("unit %d (%s, serial %d) was not published by incarnation %d", i, what, u.serial, inc)
+		}
+	}
+	if !an.hasVideoFrame {
+		return "", ""
+	}
+	if !an.firstVideoKey {
+		return "H4/first-segment-starts-at-non-key-frame", "its first video access unit holds no IDR/IRAP unit"
+	}
+	pos, ok := t.bySerial[an.firstVideoSerial]
+	if an.firstVideoSerial == 0 || !ok || t.variant[pos] < 0 {
+		return "", ""
+	}
+	vps, sps, pps := gen.ParamSets(o.c.Incs[inc].Codecs.Video, t.variant[pos])
+	want := [][]byte{sps, pps}
+	if vps != nil {
+		want = [][]byte{vps, sps, pps}
+	}
+	got := an.inband
+	if len(got) >= len(want) {
+		got = got[len(got)-len(want):] // the sets in force are the last ones before the slice data
+		same := true
+		for i := range want {
+			if !bytes.Equal(got[i], want[i]) {
+				same = false
+			}
+		}
+		if same {
+			return "", ""
+		}
+	}
+	return "H4/first-segment-key-frame-without-parameter-sets-in-force", fmt.Sprintf("the key frame (item %d) carries in-band parameter sets %x, the sequence header in force (variant %d) has %x", t.media[pos], an.inband, t.variant[pos], want)
 }
 
 // discontinuityIn reports whether the frames at media positions [from, to] show
@@ -522,8 +690,50 @@ func (o *oracle) unjustifiedNonKeyStart(inc int, f *hlsfs.File) string {
 		return "" // not attributable to a published frame: not judged
 	}
 	if o.segK[f] == 0 {
-		return "" // the first segment of an incarnation: the start of the stream is a discontinuity by itself
+		return "" // the first segment of an incarnation is judged by firstSegmentProblem
 	}
+	// Attribution.  lal forces a split when the frame it is handed lies more than 10 x fragment_duration after, or
+	// more than 1000 ms before, the frame with which the current segment was opened.  The frame that opened a
+	// segment is the first access unit / AAC batch written to it, or the second one when the cached audio was
+	// flushed in front of it; a segment that was closed again before anything was written (the flushed batch
+	// itself forced the split) leaves its opening frame as the second unit of the segment that follows.  So a
+	// forced start must be explained by one of the first two units of this segment against one of the first two
+	// units of the segment before it (of this segment itself when the one before is empty) — a genuine jump
+	// nearby does not excuse a second, spurious split.
+	if o.segK[f] < len(o.incSegs[inc]) {
+		cur, okCur := t.openers(an)
+		pa := o.analyse(o.incSegs[inc][o.segK[f]-1])
+		prev, okPrev := cur, okCur
+		if len(pa.units) > 0 {
+			prev, okPrev = t.openers(pa)
+		}
+		if okCur && okPrev {
+			o.judgedAttr[f] = true
+			for _, x := range prev {
+				for _, y := range cur {
+					if x == y {
+						continue
+					}
+					for _, line := range [][]int64{t.raw, t.rebased} {
+						if line[y]-line[x] > 10*int64(o.c.FragMs) || line[x]-line[y] > 1000 {
+							return ""
+						}
+					}
+				}
+			}
+			desc := func(ps []int) string {
+				var out []string
+				for _, p := range ps {
+					out = append(out, fmt.Sprintf("item %d @%d ms", t.media[p], t.raw[p]))
+				}
+				return strings.Join(out, ", ")
+			}
+			return fmt.Sprintf("none of the frames that can have opened it (%s) lies more than %d ms after or more than 1000 ms before a frame that can have opened the segment before it (%s)",
+				desc(cur), 10*o.c.FragMs, desc(prev))
+		}
+	}
+	// not every unit is attributable (Opus audio): fall back to the window rule
+	o.judgedWindow[f] = true
 	// Every open flushes lal's AAC cache, but a flushed batch carries the timestamp of its oldest frame, and the
 	// flush re-enters the muxer while a segment is being opened: the segment start that a frame is compared
 	// with can stem from a frame published during the segment before the (possibly empty) one that the outer
@@ -676,7 +886,8 @@ func run(c Case) *pbt.Violation {
 	root := filepath.Join(s.Dir, "hls")
 	o := &oracle{c: c, dir: filepath.Join(root, streamName), tsDir: tsDir, lastDirRemoval: -1,
 		segInc: map[*hlsfs.File]int{}, segIdx: map[*hlsfs.File]int{}, segK: map[*hlsfs.File]int{}, seqOf: map[*hlsfs.File]int64{}, seqBase: map[int]int64{}, tl: map[int]*timeline{},
-		incSegs: map[int][]*hlsfs.File{}, cut: map[int]int64{}, analysis: map[*hlsfs.File]*segAnalysis{}, discontSegs: map[string]bool{}}
+		incSegs: map[int][]*hlsfs.File{}, cut: map[int]int64{}, analysis: map[*hlsfs.File]*segAnalysis{}, discontSegs: map[string]bool{},
+		judgedAttr: map[*hlsfs.File]bool{}, judgedWindow: map[*hlsfs.File]bool{}, judgedFirst: map[*hlsfs.File]bool{}}
 	o.playlist = filepath.Join(o.dir, "playlist.m3u8")
 	o.record = filepath.Join(o.dir, "record.m3u8")
 	layer := hlsfs.New(root, nil, o.onOp)
@@ -687,6 +898,9 @@ func run(c Case) *pbt.Violation {
 		pbt.Count("fs_operation_prefixes_checked", layer.Prefixes())
 		pbt.Count("segments_closed", o.closedSegs)
 		pbt.Count("segments_with_discontinuity_tag", len(o.discontSegs))
+		pbt.Count("non_key_starts_attributed_to_opening_frames", len(o.judgedAttr))
+		pbt.Count("non_key_starts_judged_by_window_fallback", len(o.judgedWindow))
+		pbt.Count("first_segments_judged", len(o.judgedFirst))
 		if o.closedSegs >= c.FragNum+c.DelThr+2 {
 			pbt.Count("cases_ring_wrapped", 1)
 		}
